@@ -12,6 +12,7 @@ mod c13;
 mod seg;
 mod c08;
 mod c26;
+mod c22;
 mod rdr;
 mod c07;
 mod c09;
@@ -58,6 +59,7 @@ fn main() {
         "c14" => c13::run_c14(&mut ctx),
         "c08" => c08::run(&mut ctx),
         "c26" => c26::run(&mut ctx),
+        "c22" => c22::run(&mut ctx),
         "rdr" => rdr::run(&mut ctx),
         "c07" => c07::run(&mut ctx),
         "c09" => c09::run(&mut ctx),
